@@ -198,13 +198,20 @@ def _group_integrands_by_quadrature_rule(
             rules[cell_type] = (points, weights, None)
         else:
             degree = md["quadrature_degree"]
+            # Sum factorization applies only if every element of the integral
+            # (including the coordinate element) has a tensor product factorisation
+            integral_elements = [
+                *ufl.algorithms.extract_elements(integral),
+                integral.ufl_domain().ufl_coordinate_element(),
+            ]
             points, weights, tensor_factors = create_quadrature_points_and_weights(
                 integral_type,
                 ufl_cell,
                 degree,
                 scheme,
                 argument_elements,
-                use_sum_factorization,
+                use_sum_factorization
+                and all(e.has_tensor_product_factorisation for e in integral_elements),
             )
             rules = {
                 basix_cell_from_string(i): (
